@@ -132,3 +132,55 @@ def logging_shim():
     m = types.ModuleType("thejoker.logging")
     m.logger = LoggerStub()
     return m
+
+
+# ---------------------------------------------------------------------------------------------
+# iteration order of sets = a schedule the code must not depend on (str hashes change with PYTHONHASHSEED)
+# ---------------------------------------------------------------------------------------------
+
+class AdvSet(set):
+    """`set` for code under test: iterating it forks over the possible orders (all permutations up to 3 elements, the
+    sorted and the reversed order beyond), so a result that depends on set iteration order shows up as a path
+    whose observation differs.  Membership, len and algebra behave as for set; algebra returns AdvSet."""
+
+    def __iter__(self):
+        import itertools
+        from . import core
+        items = sorted(set.__iter__(self), key=repr)
+        if core.Ctx.cur is None or len(items) < 2:
+            return iter(items)
+        orders = list(itertools.permutations(items)) if len(items) <= 3 else [tuple(items), tuple(reversed(items))]
+        k = core.fresh("int", "set_order")
+        core.assume(k >= 0)
+        core.assume(k < len(orders))
+        return iter(orders[core.fork_int(k)])
+
+
+def _wrap(name):
+    def f(self, *a, **k):
+        r = getattr(set, name)(self, *a, **k)
+        return AdvSet(r) if type(r) is set else r
+    f.__name__ = name
+    return f
+
+
+for _n in ("__or__", "__and__", "__sub__", "__xor__", "__ror__", "__rand__", "__rsub__", "__rxor__", "union", "intersection", "difference",
+           "symmetric_difference", "copy"):
+    setattr(AdvSet, _n, _wrap(_n))
+
+
+def adversarial_sets(src):
+    """source transform: set displays / comprehensions become calls of the name `set` (which the loader binds to AdvSet)"""
+    import ast
+
+    class T(ast.NodeTransformer):
+        def visit_Set(self, node):
+            self.generic_visit(node)
+            return ast.copy_location(ast.Call(func=ast.Name(id="set", ctx=ast.Load()), args=[ast.List(elts=node.elts, ctx=ast.Load())], keywords=[]), node)
+
+        def visit_SetComp(self, node):
+            self.generic_visit(node)
+            return ast.copy_location(ast.Call(func=ast.Name(id="set", ctx=ast.Load()), args=[ast.ListComp(elt=node.elt, generators=node.generators)], keywords=[]), node)
+    tree = T().visit(ast.parse(src))
+    ast.fix_missing_locations(tree)
+    return ast.unparse(tree)
